@@ -62,6 +62,11 @@ CHECKS.append(
      "technique": "model-based testing: exhaustive enumeration of (typed request class x removed required-AVP subset) plus Hypothesis over routing configurations, against a reference routing/validation model evaluated on the real node in simulation",
      "text": "All 32 typed application request classes x every subset of their required scalar attributes removed (1581 cases) are sent to a running node; Hypothesis crosses class x removed subset x application id x realm x sender x 3 application layouts (incl. the same id on different peers) x handler outcome x basic/threading x interleaved DWR/DWA. The model computes the set of acceptable dispositions from the configuration; delivery must be exactly once to exactly the matching application, error answers carry the specified code, 5005 answers a Failed-AVP listing exactly the missing AVPs where the answer class provides one, base-protocol messages never reach an application.",
      "note": "Trusted: virtual transport, reference parser, the library encoder for building typed requests (C01-C03). Validation switch left at its default (on)."})
+CHECKS.append(
+    {"id": "C17", "engine": "E4-nodeworld", "category": "exploration", "design_ref": "DESIGN.md section 5 C17",
+     "technique": "stateful property-based testing (Hypothesis-generated histories) against a reference model of the per-origin retransmission window, on the real node in simulation",
+     "text": "Histories of up to 12 requests from 1..2 origin hosts on 1..2 connections, T flag 0/1, end-to-end ids from a pool of 3, answered inline or held and answered later, DWRs in between, window sizes 1..4, basic and threading applications. The model keeps per origin a bounded FIFO of the end-to-end ids of the answers seen on the wire and predicts for every request 'rejected 5012, not delivered' or 'delivered'.",
+     "note": "Trusted: virtual transport and transcript; every transmitted answer (CEA, DWA, rejections) counts towards an origin's window."})
 
 _TODO = "check not built yet in this session (planned, see DESIGN.md); not claimed until its machinery is committed"
 NOT_APPLICABLE = [{"property_id": f"C{n:02d}", "reason": _TODO} for n in range(2, 21) if f"C{n:02d}" not in {c["id"] for c in CHECKS}]
